@@ -190,6 +190,19 @@ CHECKS = {
         note="Outside: dimensions 4-60, arbitrary irrational/complex unitary bases and complex phases for the sort, evec_load (file "
              "parsing, same reason as C17).",
         design="3/C20"),
+    "C18": dict(
+        engine="symnum+z3",
+        technique="symbolic execution of the real run-static click callback on symbolic data objects (real pandas with object columns, numpy "
+                  "proxy, library kernels uninterpreted through sys.modules); z3 equality of every output column with the stated relation; "
+                  "real command replayed on a shipped example",
+        text="For all energies / table values / cell masses and every implementation of the kernels, in modes none / volume / pressure, with "
+             "and without static table, crystal system and --cellmass: V, F, P, density carry the A^3 / eV / GPa / g/cm^3 factors once; "
+             "P = -grad(FIT(E))/grad(v) (spline-resampled in mode none); F = input energies (none) or the fit at the row's V; "
+             "pressure-mode V and F are the same inverse interpolation applied to v and to the fit, rows at the requested pressures; moduli = "
+             "fit of the table at the row's V; VRH and v_p, v_s, v_phi relations.",
+        note="Grid of 4 points and 5 input volumes (the callback is uniform in these sizes, which is an argument, not a solver result); file "
+             "parsing, table printing and kernel numerics outside; stage R runs the real command once per mode.",
+        design="3/C18"),
 }
 
 NOT_APPLICABLE = {
